@@ -526,6 +526,14 @@ pub fn run_step(
                 SExp::Integer(l, v) => {
                     /* An integer picks a value from the context */
                     let flat_v = flatten_signed_int(v.clone());
+                    if flat_v == bi_zero() {
+                        // Path 0 (any number of zero bytes) is nil.
+                        return Ok(RunStep::OpResult(
+                            l.clone(),
+                            Rc::new(SExp::Nil(l.clone())),
+                            Rc::new(step_.clone()),
+                        ));
+                    }
                     return Ok(RunStep::OpResult(
                         l.clone(),
                         choose_path(
